@@ -79,7 +79,7 @@ def observe_program(P, givens, seed):
         turn = pr.run_real_turn(d, flat, [[pg.encode(x) for x in g] for g in givens], setup_paths, dbg)
     for gi, given in enumerate(givens):
         row = {"given": [pg.encode(x) for x in given], "raised": False, "errclass": "", "val": pg.verr(), "exec": [],
-               "dup": False, "async": is_async, "built": True, "twice": False, "constret": False, "mc": mc, "conc": 0, "loop": 0, "pre": list(pre), "fresh_same": True, "dbg": dbg}
+               "dup": False, "async": is_async, "built": True, "twice": False, "constret": False, "mc": mc, "conc": 0, "loop": 0, "pre": list(pre), "fresh_same": True, "dbg": dbg, "wrongthread": False}
         if build_error is not None:
             row["built"] = False
             row["twice"] = "already occupied" in str(build_error)
@@ -94,6 +94,7 @@ def observe_program(P, givens, seed):
         else:
             r = pr.run_real(d, flat, row["given"], is_async, dbg)
         row.update({k: r[k] for k in ("raised", "errclass", "val", "exec", "dup")})
+        row["wrongthread"] = bool(r.get("wrongthread"))
         if r.get("unknown"):
             row["unknown"] = r["unknown"]
         if r.get("msg"):
@@ -216,7 +217,7 @@ def run(tier, seed, log=common.say):
         used = sorted({r["p"] for r in b})
         remap = {p: k + 1 for k, p in enumerate(used)}
         path = os.path.join(common.CACHE, f"e2-{os.getpid()}-{i}.json")
-        rows = [{"p": remap[r["p"]], **{k: r[k] for k in ("given", "raised", "errclass", "val", "exec", "dup", "async", "built", "twice", "constret", "conc", "loop", "pre")}, "fresh_same": r.get("fresh_same", True)} for r in b]
+        rows = [{"p": remap[r["p"]], **{k: r[k] for k in ("given", "raised", "errclass", "val", "exec", "dup", "async", "built", "twice", "constret", "conc", "loop", "pre")}, "fresh_same": r.get("fresh_same", True), "wrongthread": bool(r.get("wrongthread"))} for r in b]
         with open(path, "w") as f:
             json.dump({"progs": [stripped[p - 1] for p in used], "obs": rows}, f)
         try:
@@ -297,7 +298,7 @@ def run(tier, seed, log=common.say):
     return res
 
 
-NONTRIVIAL = {"C01": "ineq", "C10": "flagged", "C20": "nested", "C17": "async", "C03": "ineq", "C02": "indexed", "C15": "ineq", "C13": "withdebug"}
+NONTRIVIAL = {"C01": "ineq", "C10": "flagged", "C20": "nested", "C17": "async", "C03": "ineq", "C02": "indexed", "C15": "ineq", "C13": "withdebug", "C04": "nested"}
 
 
 def report(prop, res):
@@ -333,7 +334,7 @@ def report(prop, res):
                    "indexing, unpack_to, operators (also reflected), and_/or_/not_, re-used functions, all return shapes, nested DAGs to depth 3, activation "
                    "flags of every form. Non-trivial: inside the equivalence (the plain body does not raise)"
                    + {"C01": "", "C10": " and the program carries an activation flag", "C20": " and the program calls a nested DAG",
-                      "C17": " and run as AsyncDAG", "C03": "", "C02": " and some value is used through an index path", "C15": "", "C13": " and the program has debug call sites"}[prop],
+                      "C17": " and run as AsyncDAG", "C03": "", "C02": " and some value is used through an index path", "C15": "", "C13": " and the program has debug call sites", "C04": " and the program calls a nested DAG (thread identity of every entered node against its resource)"}[prop],
            "samples": res["samples"], "exhaustive": False, "programs": res["programs"], "counts": res["counts"],
            "model_run": {k: res["model"][k] for k in ("cases", "states", "transitions", "ok")},
            "violation_counts": {k: n for k, n in res["viol_counts"].items() if k.startswith(prop)},
@@ -353,11 +354,16 @@ def replay(payload, log=common.say):
     P = payload["prog"]
     given = [pg.decode(x) for x in payload["given"]]
     row = {"p": 1, "given": payload["given"], "raised": False, "errclass": "", "val": pg.verr(), "exec": [], "dup": False,
-           "async": payload.get("async", False), "built": True, "twice": False, "constret": False, "conc": 0, "loop": 0, "pre": [], "fresh_same": True}
+           "async": payload.get("async", False), "built": True, "twice": False, "constret": False, "conc": 0, "loop": 0, "pre": [], "fresh_same": True, "wrongthread": False}
     try:
-        d, flat = pr.build(P, lambda k: {}, is_async=row["async"], mc=2)
+        attrs = lambda k: {}  # noqa: E731
+        if payload.get("clause") == "C04.thread":
+            from tawazi import Resource
+            attrs = lambda k: {"resource": Resource.main_thread}  # noqa: E731  (every decorated function asks for the main thread)
+        d, flat = pr.build(P, attrs, is_async=row["async"], mc=2)
         r = pr.run_real(d, flat, payload["given"], row["async"], bool(payload.get("observed", {}).get("dbg")))
         row.update({k: r[k] for k in ("raised", "errclass", "val", "exec", "dup")})
+        row["wrongthread"] = bool(r.get("wrongthread"))
     except BaseException as e:  # noqa: BLE001
         row["built"] = False
         row["twice"] = "already occupied" in str(e)
